@@ -208,6 +208,35 @@ def basic_glue(c, e1names=None, with_ep=True, with_mt=True):
                 args = ", ".join("vsupport::arg(&a[%d])" % j for j in range(n[0][1]))
                 ctors.append('("%s", "contract", "new") => { let m = <%s>::new(%s); json!({"json": vsupport::js(&m)}) },' % (k, t, args))
         arms.append('"ctor" => { let a: Vec<Value> = vsupport::args_of(&c.input); match (c.kind.as_str(), c.part.as_str(), c.extra["fn"].as_str().unwrap_or("")) {\n            %s\n            _ => json!({"machinery": "bad ctor"}),\n        } },' % "\n            ".join(ctors))
+    # remote helpers (C10): executor / querier helper traits, names read from E1
+    if e1names and with_ep and c.entry_points is not None:
+        rex, rq = [], []
+        dyn_assoc = lambda i: "".join(", %s = %s" % (n, t) for n, t in ([("ExecC", cmsg)] if i.exec_c else []) + ([("QueryC", cqry)] if i.query_c else []) + list(i.assoc_impl))
+        for (label, tys) in parts_of(c):
+            iface = next((i for i in c.interfaces if i.module == label), None)
+            if iface is None:
+                forms = [("concrete", ct, "sv")]
+            else:
+                forms = [("dyn", "dyn %s::%s<Error = %s%s>" % (label, iface.name, err, dyn_assoc(iface)), label + "::sv"),
+                         ("impl", ct, label + "::sv")]
+            for via, rty, path in forms:
+                for (fn, nargs) in e1names.get((label, "executor"), []):
+                    args = ", ".join("vsupport::arg(&a[%d])" % j for j in range(nargs))
+                    rex.append('("%s", "%s", "%s") => { use %s::Executor; let r = if borrowed { %s::types::Remote::<%s>::borrowed(&addr) } else { %s::types::Remote::<%s>::new(addr.clone()) }; '
+                               'let mut b = r.executor(); for f in fseq { b = b.with_funds(f); } vsupport::obs_wasm(b.%s(%s).map(|x| x.build())) },' % (
+                                   label, via, fn, path, "vsupport::sylvia", rty, "vsupport::sylvia", rty, fn, args))
+                for (fn, nargs) in e1names.get((label, "querier"), []):
+                    args = ", ".join("vsupport::arg(&a[%d])" % j for j in range(nargs))
+                    rq.append('("%s", "%s", "%s") => { use %s::Querier; let ctx2 = c.ctx.clone(); vsupport::with_recording_querier::<%s, _, _>('
+                              'move |m| { let cx = vsupport::Cx::<%s>::new(&ctx2); match cw_std::from_json::<%s>(m) { Err(e) => Err(format!("target rejects query body: {}", e)), '
+                              'Ok(q) => entry_points::query(cx.deps.as_ref(), cx.env.clone(), q).map_err(|e| e.to_string()) } }, '
+                              '|qw| { let r = if borrowed { %s::types::Remote::<%s>::borrowed(&addr) } else { %s::types::Remote::<%s>::new(addr.clone()) }; let bq = r.querier(qw); vsupport::jres(bq.%s(%s)) }) },' % (
+                                  label, via, fn, path, cqry, cqry, wrappers["query"], "vsupport::sylvia", rty, "vsupport::sylvia", rty, fn, args))
+        pre = ('let a: Vec<Value> = vsupport::args_of(&c.input); let addr = Addr::unchecked(c.ctx["addr"].as_str().unwrap_or("target")); '
+               'let borrowed = c.extra["borrowed"].as_bool().unwrap_or(false); let fseq = vsupport::funds_seq(&c.ctx); '
+               'match (c.part.as_str(), c.extra["via"].as_str().unwrap_or(""), c.extra["fn"].as_str().unwrap_or(""))')
+        arms.append('"remote_exec" => { %s {\n            %s\n            _ => json!({"machinery": "bad remote_exec"}),\n        } },' % (pre, "\n            ".join(rex)))
+        arms.append('"remote_query" => { %s {\n            %s\n            _ => json!({"machinery": "bad remote_query"}),\n        } },' % (pre, "\n            ".join(rq)))
     return arms
 
 
@@ -217,9 +246,12 @@ def subject_impl(arms):
 
 
 def e1_names(obs):
-    """{(part, kind): [(ctor fn, nargs)]} from an E1 observation (contract or interface)."""
+    """{kind: [(ctor fn, nargs)], "executor": [fn], "querier": [fn]} from an E1 observation."""
     out = {}
     name, items = model.sv_items(obs)
+    for it in items:
+        if it.get("k") == "trait" and it.get("name") in ("Executor", "Querier"):
+            out[it["name"].lower()] = [(f["name"], len(f["params"]) - 1) for f in it["items"] if f.get("k") == "fn"]
     for it in items:
         if it.get("k") == "impl" and it.get("trait") is None:
             st = model.norm(it["self_ty"]).split("<")[0]
@@ -319,7 +351,7 @@ class Corpus:
                     else:
                         other_errors.append(msg.get("rendered", "")[:2000])
             if p.returncode == 0:
-                core.log("[e2] corpus %s: %d programs built in %.1fs" % (self.name, len(self.programs) - len(self.failed), total))
+                core.log("[e2] corpus %s: %d programs built in %.1fs (%d rejected by rustc)" % (self.name, len(self.programs), total, len(self.failed)))
                 return total
             if not bad:
                 raise core.MachineryError("corpus %s does not build and no program can be blamed:\n%s\n%s" % (
